@@ -20,6 +20,8 @@ import JV.Proofs.JsonParserDepth
 import JV.Proofs.JsonParserString
 import JV.Proofs.JsonParserRefine
 import JV.Proofs.JsonParserSoundScalar
+import JV.Proofs.JsonParserSound
+import JV.Proofs.JsonParserSoundNec
 namespace JV.Props.C02
 open JV Spec.Rfc8259
 
@@ -174,9 +176,10 @@ example : (run ⟨8, false, false⟩ [32, 91, 13, 49, 46, 53, 13, 93, 13]).evs.r
 /-- SOUNDNESS, for documents whose root is a literal or a number (the first character after the leading white space is none of
     `"`, `[`, `{`), comments off, all inputs: whatever the parser model accepts, the RFC 8259 reference reads as a value, and (by
     completeness) the events reported are the events of that value. So on these documents the model accepts EXACTLY the
-    texts of the grammar. Not covered: roots that are strings, arrays or objects (for strings the converse fails as stated:
-    the parser accepts a lone low surrogate escape and a high surrogate followed by any `\uXXXX`, the reference gives those
-    texts no value — DESIGN.md, C02 exclusions). -/
+    texts of the grammar. (Needs only `comments = false`. For every root — strings, arrays, objects, any nesting — see `parse_sound`
+    below, which needs trailing commas off and the text to be free of the two surrogate anomalies: the parser accepts a lone low
+    surrogate escape and a high surrogate followed by any `\uXXXX`, the reference gives those texts no value — DESIGN.md, C02
+    exclusions.) -/
 theorem parse_sound_scalars (cfg : Cfg) (bs : Bytes) (hc : cfg.comments = false)
     (hroot : ∀ c r, bs.dropWhile isWs = c :: r → c ≠ 34 ∧ c ≠ 91 ∧ c ≠ 123)
     (h : accepted (run cfg bs) = true) :
@@ -202,8 +205,8 @@ theorem parse_exact_scalars (cfg : Cfg) (bs : Bytes) (hc : cfg.comments = false)
 /-- SOUNDNESS also for a root string, provided the text contains no `\u` escape (no backslash followed by `u`; plain characters,
     raw UTF-8 and the eight two-character escapes are all covered): whatever the model accepts (comments off) among the documents
     whose root is a literal, a number or such a string, the reference reads as a value, with the reported events those of the
-    value. Strings with `\u` escapes are left out because the converse is false for some of them (lone low surrogate, high
-    surrogate followed by a non-low `\uXXXX`: accepted by the parser, no value in the reference). -/
+    value. (Needs only `comments = false`; `parse_sound` below covers `\u` escapes too, under `NoSurrogateAnomaly`, which this
+    hypothesis implies — `no_backslash_u_no_anomaly`.) -/
 theorem parse_sound_scalars_and_plain_strings (cfg : Cfg) (bs : Bytes) (hc : cfg.comments = false)
     (hroot : ∀ c r, bs.dropWhile isWs = c :: r → c ≠ 91 ∧ c ≠ 123)
     (hnu : ∀ pre post, bs ≠ pre ++ 92 :: 117 :: post)
@@ -224,6 +227,126 @@ example : accepted (run ⟨8, false, false⟩ [34, 92, 117, 100, 99, 48, 48, 34]
     (parseText { comments := false, trailingComma := false, maxDepth := 8 } [34, 92, 117, 100, 99, 48, 48, 34]).isSome = false := by decide
 example : accepted (run ⟨8, false, false⟩ [34, 92, 117, 100, 56, 48, 48, 92, 117, 48, 48, 52, 49, 34]) = true ∧
     (parseText { comments := false, trailingComma := false, maxDepth := 8 } [34, 92, 117, 100, 56, 48, 48, 92, 117, 48, 48, 52, 49, 34]).isSome = false := by decide
+/-! SOUNDNESS for whole documents (proof: Proofs/JsonParserSoundCtx, -Str, JsonParserSound — the converse simulation, by induction on
+    the length of the remaining input: an accepting run of the model from a state that expects a value / an array body / an object
+    body in a nesting context decomposes into the reference's parse of a prefix and an accepting run from the after-value state on
+    the rest; every character the grammar does not allow at a point leads the model to an error code). -/
+
+/-- The text has neither of the two surrogate anomalies — the ONLY two places where the parser (comments and trailing commas off)
+    accepts a text the RFC 8259 reference gives no value (witnesses below). Decidable, computed by one left-to-right scan of the
+    TEXT that reads a backslash together with the character after it (`\u` together with its four hex digits):
+    (1) no `\uDC00`–`\uDFFF` escape stands anywhere but directly after a `\uD800`–`\uDBFF` escape (a lone low surrogate: the
+        parser's `unicode_traits::convert` appends nothing for it and the string is accepted without it);
+    (2) no `\uD800`–`\uDBFF` escape is directly followed by a `\uXXXX` escape whose value is not in DC00–DFFF (the parser combines
+        the two code units arithmetically into some scalar value instead of refusing).
+    Where the four characters after `\u` are not hex digits, or a high surrogate escape is followed by something that is not a `\u`
+    escape, parser and reference both refuse the text and the scan stops with `true`. A text without any `\u` is anomaly-free
+    (`no_backslash_u_no_anomaly`); every text of the grammar is anomaly-free (`value_implies_no_anomaly`), so the predicate
+    excludes exactly the divergent texts (`disagreement_iff_anomaly`). -/
+abbrev NoSurrogateAnomaly (bs : Bytes) : Prop := surrogateOK bs = true
+
+/-- SOUNDNESS for whole documents — every byte string, every nesting of arrays and objects, every escape, every white-space and
+    `\r` placement, every nesting limit: if the parser model with comments and trailing commas off accepts `bs` (ends in `done`
+    without an error code) and `bs` has neither surrogate anomaly, then the RFC 8259 reference (same nesting limit) reads `bs` as a
+    value `v`, and the events the parser reported are, in order, exactly the events of `v` (up to the `noesc` tag). -/
+theorem parse_sound (cfg : Cfg) (bs : Bytes) (hc : cfg.comments = false) (ht : cfg.trailingComma = false)
+    (hs : NoSurrogateAnomaly bs) (h : accepted (run cfg bs) = true) :
+    ∃ v, parseText { comments := false, trailingComma := false, maxDepth := cfg.maxDepth } bs = some v ∧
+      (run cfg bs).evs.reverse.map eraseNoesc = eventsOf v := by
+  obtain ⟨v, hv⟩ := run_sound cfg hc ht bs hs h
+  exact ⟨v, hv, (run_complete cfg bs v hv).2⟩
+
+/-- EXACTNESS: on texts without a surrogate anomaly the strict parser accepts exactly the texts of the RFC 8259 grammar (within
+    the nesting limit) — soundness and completeness together, for all inputs -/
+theorem parse_exact (cfg : Cfg) (bs : Bytes) (hc : cfg.comments = false) (ht : cfg.trailingComma = false)
+    (hs : NoSurrogateAnomaly bs) :
+    accepted (run cfg bs) = true ↔
+      (parseText { comments := false, trailingComma := false, maxDepth := cfg.maxDepth } bs).isSome = true := by
+  constructor
+  · intro h
+    obtain ⟨v, hv⟩ := run_sound cfg hc ht bs hs h
+    simp [hv]
+  · intro h
+    cases hv : parseText { comments := false, trailingComma := false, maxDepth := cfg.maxDepth } bs with
+    | none => simp [hv] at h
+    | some v => exact (run_complete cfg bs v hv).1
+
+/-- … in particular every text the strict parser refuses with whatever error code has no value in the grammar, and vice versa -/
+theorem parse_exact_reject (cfg : Cfg) (bs : Bytes) (hc : cfg.comments = false) (ht : cfg.trailingComma = false)
+    (hs : NoSurrogateAnomaly bs) :
+    accepted (run cfg bs) = false ↔
+      parseText { comments := false, trailingComma := false, maxDepth := cfg.maxDepth } bs = none := by
+  have := parse_exact cfg bs hc ht hs
+  cases ha : accepted (run cfg bs) <;> cases hp : parseText { comments := false, trailingComma := false, maxDepth := cfg.maxDepth } bs <;>
+    simp_all
+
+/-- the hypothesis `NoSurrogateAnomaly` is NECESSARY, i.e. it excludes nothing the grammar derives: every text the reference gives a
+    value is anomaly-free (proof: Proofs/JsonParserSoundNec — the scan commutes with every production of the reference) -/
+theorem value_implies_no_anomaly (maxDepth : Nat) (bs : Bytes) (v : JT)
+    (h : parseText { comments := false, trailingComma := false, maxDepth := maxDepth } bs = some v) : NoSurrogateAnomaly bs :=
+  parseText_sOK ⟨maxDepth, false, false⟩ bs v h
+
+/-- CHARACTERISATION without side condition: the texts of the RFC 8259 grammar (within the nesting limit) are exactly the texts
+    the strict parser accepts that have no surrogate anomaly — for every byte string -/
+theorem grammar_iff_accepted_and_no_anomaly (cfg : Cfg) (bs : Bytes) (hc : cfg.comments = false) (ht : cfg.trailingComma = false) :
+    (parseText { comments := false, trailingComma := false, maxDepth := cfg.maxDepth } bs).isSome = true ↔
+      (accepted (run cfg bs) = true ∧ NoSurrogateAnomaly bs) := by
+  constructor
+  · intro h
+    cases hv : parseText { comments := false, trailingComma := false, maxDepth := cfg.maxDepth } bs with
+    | none => simp [hv] at h
+    | some v => exact ⟨(run_complete cfg bs v hv).1, parseText_sOK cfg bs v hv⟩
+  · rintro ⟨h, hs⟩
+    exact (parse_exact cfg bs hc ht hs).1 h
+
+/-- … so the strict parser and the reference DISAGREE on a text exactly when the parser accepts it and it has a surrogate anomaly:
+    the two anomalies are the only divergence, and every anomalous text the parser accepts is a divergence -/
+theorem disagreement_iff_anomaly (cfg : Cfg) (bs : Bytes) (hc : cfg.comments = false) (ht : cfg.trailingComma = false) :
+    (accepted (run cfg bs) = true ∧ parseText { comments := false, trailingComma := false, maxDepth := cfg.maxDepth } bs = none) ↔
+      (accepted (run cfg bs) = true ∧ ¬ NoSurrogateAnomaly bs) := by
+  have hg := grammar_iff_accepted_and_no_anomaly cfg bs hc ht
+  constructor
+  · rintro ⟨ha, hn⟩
+    refine ⟨ha, fun hs => ?_⟩
+    have := hg.2 ⟨ha, hs⟩
+    rw [hn] at this; cases this
+  · rintro ⟨ha, hs⟩
+    refine ⟨ha, ?_⟩
+    cases hv : parseText { comments := false, trailingComma := false, maxDepth := cfg.maxDepth } bs with
+    | none => rfl
+    | some v => exact absurd (hg.1 (by simp [hv])).2 hs
+
+/-- a text in which no backslash is followed by `u` has no surrogate anomaly (so `parse_sound` covers every document whose
+    strings use only plain characters, raw UTF-8 and the eight two-character escapes) -/
+theorem no_backslash_u_no_anomaly (bs : Bytes) (h : ∀ pre post, bs ≠ pre ++ 92 :: 117 :: post) : NoSurrogateAnomaly bs :=
+  sOK_of_noU bs.length bs (Nat.le_refl _) h
+
+-- non-vacuity: {"k\n":[1e3,<CR>"\ud83d\ude00",{}]}<LF> — the hypotheses, and both sides of the conclusion, evaluated
+example : NoSurrogateAnomaly [123, 34, 107, 92, 110, 34, 58, 91, 49, 101, 51, 44, 13, 34, 92, 117, 100, 56, 51, 100, 92, 117, 100, 101, 48, 48, 34, 44, 123, 125, 93,
+    125, 10] := by decide
+example : accepted (run ⟨8, false, false⟩ [123, 34, 107, 92, 110, 34, 58, 91, 49, 101, 51, 44, 13, 34, 92, 117, 100, 56, 51, 100, 92, 117, 100, 101, 48, 48, 34, 44, 123, 125, 93,
+    125, 10]) = true := by decide
+example : (parseText { comments := false, trailingComma := false, maxDepth := 8 } [123, 34, 107, 92, 110, 34, 58, 91, 49, 101, 51, 44, 13, 34, 92, 117, 100, 56, 51, 100, 92, 117, 100, 101, 48, 48, 34, 44, 123, 125, 93,
+    125, 10]).isSome = true := by decide
+example : (run ⟨8, false, false⟩ [123, 34, 107, 92, 110, 34, 58, 91, 49, 101, 51, 44, 13, 34, 92, 117, 100, 56, 51, 100, 92, 117, 100, 101, 48, 48, 34, 44, 123, 125, 93,
+    125, 10]).evs.reverse =
+    [.beginObject, .key [107, 10], .beginArray, .frac [49, 101, 51], .str [240, 159, 152, 128] false, .beginObject, .endObject, .endArray,
+     .endObject] := by decide
+-- the predicate is false on exactly the anomalous texts: "\udc00", "\ud800\u0041", and "\\ud83d\ude00" (an escaped backslash, the
+-- letters ud83d, then a lone low surrogate) — and true on the pair "\ud83d\ude00" and on "\\udc00" (escaped backslash + letters)
+example : ¬ NoSurrogateAnomaly [34, 92, 117, 100, 99, 48, 48, 34] := by decide
+example : ¬ NoSurrogateAnomaly [34, 92, 117, 100, 56, 48, 48, 92, 117, 48, 48, 52, 49, 34] := by decide
+example : ¬ NoSurrogateAnomaly [34, 92, 92, 117, 100, 56, 51, 100, 92, 117, 100, 101, 48, 48, 34] := by decide
+example : accepted (run ⟨8, false, false⟩ [34, 92, 92, 117, 100, 56, 51, 100, 92, 117, 100, 101, 48, 48, 34]) = true ∧
+    (parseText { comments := false, trailingComma := false, maxDepth := 8 } [34, 92, 92, 117, 100, 56, 51, 100, 92, 117, 100, 101, 48, 48, 34]).isSome = false := by
+  decide
+example : NoSurrogateAnomaly [34, 92, 117, 100, 56, 51, 100, 92, 117, 100, 101, 48, 48, 34] := by decide
+example : NoSurrogateAnomaly [34, 92, 92, 117, 100, 99, 48, 48, 34] := by decide
+-- both hypotheses on the options are needed: with trailing commas on the parser accepts [1,], with comments on [1/**/]
+example : accepted (run ⟨8, false, true⟩ [91, 49, 44, 93]) = true ∧
+    (parseText { comments := false, trailingComma := false, maxDepth := 8 } [91, 49, 44, 93]).isSome = false := by decide
+example : accepted (run ⟨8, true, false⟩ [91, 49, 47, 42, 42, 47, 93]) = true ∧
+    (parseText { comments := false, trailingComma := false, maxDepth := 8 } [91, 49, 47, 42, 42, 47, 93]).isSome = false := by decide
 end ParserRefinement
 
 /-! ### the option flags relax exactly one construct each (kernel-evaluated instances, all four flag pairs) -/
